@@ -19,20 +19,32 @@ def expected_skip_type(skip, module):
 
 
 def run(ctx, fs_unused=None):
-    unit = "fx_kinds3" if ctx.tier == "thorough" else "fx_kinds2"
+    base = "fx_kinds3" if ctx.tier == "thorough" else "fx_kinds2"
+    rc = ctx.rule("R07-CONST", "in every grammar of the kind-nesting family (optimized and raw-AST generator), every Skipped<_,_,K>, every repetition and "
+                               "every rule reference inside rule r carries K = 0 (atomic / compound-atomic), 1 (non-atomic) or INHERITED (normal / silent) "
+                               "according to r's own kind")
+    rs = ctx.rule("R07-SKIPTY", "generics::Skipped<'i> is AtomicRepeat over WHITESPACE<'i,0> / COMMENT<'i,0> (or Empty) according to which are defined, "
+                                "and it is the skip type at every skip position and of every full-parse wrapper")
+    rk = ctx.rule("R07-KIND", "derive output: the full-parse wrapper skips before EOI exactly for normal / silent / non-atomic rules")
+    n_pos = 0
+    for unit in (base, base + "r"):
+        n_pos += run_unit(ctx, unit, rc, rs, rk)
+    rc.note("%d skip / reference positions inspected" % n_pos)
+    floor = 400 if base == "fx_kinds2" else 3000
+    rc.require(floor, "rules")
+    rs.require(200 if base == "fx_kinds2" else 1000, "grammars")
+    rk.require(2 * floor, "wrapper functions")
+
+
+def run_unit(ctx, unit, rc, rs, rk):
     fs = facts.load("core", unit)
     world = nodes.World(fs, ["pest_typed", unit])
     ct = tt.ClassTrees(world)
     ex = tt.load_expect(unit)
     kconst = ex["kconst"]
     fxc = fs[unit]
-    ctx.analysed["fixtures"] = "%s: %d grammars (every nesting of the five rule kinds to depth %d x four WHITESPACE/COMMENT definitions)" % (
-        unit, len(ex["modules"]), ex["depth"])
-    rc = ctx.rule("R07-CONST", "in every grammar of the kind-nesting family, every Skipped<_,_,K>, every repetition and every rule reference inside "
-                               "rule r carries K = 0 (atomic / compound-atomic), 1 (non-atomic) or INHERITED (normal / silent) according to r's own kind")
-    rs = ctx.rule("R07-SKIPTY", "generics::Skipped<'i> is AtomicRepeat over WHITESPACE<'i,0> / COMMENT<'i,0> (or Empty) according to which are defined, "
-                                "and it is the skip type at every skip position and of every full-parse wrapper")
-    rk = ctx.rule("R07-KIND", "derive output: the full-parse wrapper skips before EOI exactly for normal / silent / non-atomic rules")
+    ctx.analysed["fixtures " + unit] = "%d grammars (every nesting of the five rule kinds to depth %d x four WHITESPACE/COMMENT definitions%s)" % (
+        len(ex["modules"]), ex["depth"], ", #[pest_optimizer = false]" if ex.get("generator") == "raw" else "")
     n_pos = 0
     for mod, info in sorted(ex["modules"].items()):
         module = "%s::%s" % (unit, mod)
@@ -45,12 +57,12 @@ def run(ctx, fs_unused=None):
             continue
         got_skip = fxc.tys(al["alias_of"])
         if got_skip == want_skip:
-            rs.inst(mod + ": alias", fxc.loc(al.get("sp")), "ok", {"Skipped": got_skip.replace(module + "::rules_impl::rules::", "")})
+            rs.inst(unit + "::" + mod + ": alias", fxc.loc(al.get("sp")), "ok", {"Skipped": got_skip.replace(module + "::rules_impl::rules::", "")})
         else:
-            rs.violate(mod + ": alias", "generics::Skipped is %s, expected %s" % (got_skip, want_skip), fxc.loc(al.get("sp")))
+            rs.violate(unit + "::" + mod + ": alias", "generics::Skipped is %s, expected %s" % (got_skip, want_skip), fxc.loc(al.get("sp")))
         for r, kind in sorted(info["rules"].items()):
             t = fx.inner_type(r)
-            key = "%s::%s (%s)" % (mod, r, kind)
+            key = "%s%s::%s (%s)" % ("raw:" if unit.endswith("r") else "", mod, r, kind)
             if t is None:
                 rc.violate(key, "rule struct has no TypedNode impl")
                 continue
@@ -93,8 +105,4 @@ def run(ctx, fs_unused=None):
             consts = [a for kind_, a in im.self_adt()[1] if kind_ == "c"]
             if consts != ["1"]:
                 rk.violate(key + ": entry", "ParsableTypedNode implemented for %s, expected <'i, 1>" % im.self_ty, im.loc)
-    rc.note("%d skip / reference positions inspected" % n_pos)
-    floor = 200 if unit == "fx_kinds2" else 1500
-    rc.require(floor, "rules")
-    rs.require(100 if unit == "fx_kinds2" else 500, "grammars")
-    rk.require(2 * floor, "wrapper functions")
+    return n_pos
